@@ -28,8 +28,12 @@ def run(ck, progs):
                      "down-count (1): exactly one thread sees it")
     ck.rule("C17.6", "each spin loop reloads the counter atomically in its body and exits only at the extreme of its direction "
                      "(thread count going up, 0 going down)")
+    ck.rule("C17.7", "the barrier body interpreted one arrival at a time over 10 consecutive uses (1, 2, 3, 5, 8 threads in lock step): exactly one "
+                     "leader per use, an arrival waits at every counter value before the last arrival and passes at the last; a counter whose "
+                     "rest value grows is also taken across 2^32")
     for cfg, P in progs.items():
         _run(ck, P, cfg)
+        _sequential_uses(ck, P, cfg)
 
 
 def _run(ck, P, cfg):
@@ -336,3 +340,148 @@ def _orders(ck, rmws, cfg):
             ck.holds("C17.4", inst, a.where, "arrival RMW is %s" % X.MEMORY_ORDER[o], cfg)
         else:
             ck.violated("C17.4", inst, a.where, "arrival RMW is %s; it must release this thread's earlier writes and acquire those of the threads that arrived before (>= acq_rel)" % X.MEMORY_ORDER.get(o, o), cfg)
+
+
+def _sequential_uses(ck, P, cfg):
+    """C17.7 -- the barrier body is interpreted, one arriving thread at a time, over consecutive uses (threads in lock step, so the
+    values a counter takes within one use are the same under every interleaving): in each use exactly one arrival gets the leader flag,
+    an arrival waits while the counter holds any value it takes before the last arrival, and passes at the value the last arrival
+    leaves.  If the rest value of a counter grows from use to use, one more use is interpreted starting from the largest rest value
+    below 2^32 (the wrap)."""
+    from .. import interp
+    f = P.fn("sync_thread_barrier")
+    inst = "uses@sync_thread_barrier"
+    statics = [n for n in f.walk() if n.k == "VarDecl" and n.sc == "static_local" and n.tls and n.d.get("ti")]
+    if len(statics) != 1:
+        ck.inconclusive("C17.7", inst, f.where, "the thread-local phase variable was not recognised", cfg)
+        return
+    pname = statics[0].name
+
+    class Cell:
+        pass
+
+    def call(phase, cells, T, load_value=None):
+        """One thread runs the barrier body: cells = {counter text: value}.  load_value None: atomic loads are undetermined (both ways);
+        otherwise every load returns it.  Returns (leader flag or None, new phase, cells, passes?)."""
+        cells = dict(cells)
+
+        def atomic(ip, e, st):
+            kind = Q.atomic_kind(e)
+            ptr = e.children[0]
+            key = ip.key(X.strip(ptr), st) if False else None
+            # which counter: evaluate the pointer expression cs + idx / &cs[idx] through the local that holds it
+            idx = None
+            pe = X.strip(ptr)
+            if pe.k == "DeclRefExpr":
+                idx = st["env"].get(pe.name)
+            else:
+                idx = ip.rv(ptr, st)
+            if idx is None:
+                return None
+            ti = e.d.get("ti")
+            if kind == "load":
+                return load_value if load_value is not None else None
+            if kind == "rmw":
+                op = Q.RMW_OPS[e.aop]
+                arg = ip.rv(e.children[1], st)
+                old = cells.get(idx, 0)
+                if arg is None:
+                    return None
+                new = {"add": old + arg, "sub": old - arg, "or": old | arg, "and": old & arg, "xor": old ^ arg}.get(op)
+                if new is None:
+                    return None
+                cells[idx] = new & M32
+                return old
+            return None
+        env = {pname: phase, "global_config.n_threads": T}
+        # the counter pointer: a local initialised with `cs + (phase & 1)`; model the array base as 0 and element size 1
+        for n in f.walk():
+            if n.k == "VarDecl" and n.sc == "static_local" and not n.tls:
+                env[n.name] = 0
+        outs = interp.Interp(f, max_visits=6, atomic=atomic).run(env)
+        exits = [o for o in outs if o.how == "exit"]
+        waits = [o for o in outs if o.how == "loop-bound"]
+        return exits, waits, cells
+
+    bad = None
+    n_uses = 0
+    for T in (1, 2, 3, 5, 8):
+        cells = {}
+        phase = 0
+        rests = {}
+        probes = [None]
+        for use in range(0, 10):
+            start_cells = dict(cells)
+            leaders = 0
+            seq = []
+            ph_next = None
+            for i in range(T):
+                exits, waits, cells = call(phase, cells, T, None)
+                if not exits:
+                    ck.inconclusive("C17.7", inst, f.where, "the barrier body could not be interpreted (thread %d of %d, use %d)" % (i, T, use), cfg)
+                    return
+                rets = {o.ret for o in exits}
+                phs = {o.env.get(pname) for o in exits}
+                if len(rets) != 1 or None in rets or len(phs) != 1 or None in phs:
+                    ck.inconclusive("C17.7", inst, f.where, "leader flag / next phase are not determined by the arrival order", cfg)
+                    return
+                leaders += 1 if next(iter(rets)) else 0
+                ph_next = next(iter(phs))
+                changed = [k for k in cells if cells[k] != start_cells.get(k, 0)]
+                seq.append(dict(cells))
+            n_uses += 1
+            touched = sorted({k for s_ in seq for k in s_ if s_[k] != start_cells.get(k, 0)} | {k for k in start_cells if seq and seq[-1].get(k) != start_cells[k]})
+            if leaders != 1 and bad is None:
+                bad = "with %d thread(s), use number %d of the barrier elects %d leaders" % (T, use + 1, leaders)
+            if len(touched) == 1:
+                k = touched[0]
+                vals = [s_[k] for s_ in seq]
+                final = vals[-1]
+                for j, v in enumerate(vals):
+                    # does a thread spinning on value v go on?
+                    ex, wt, _ = call(phase, dict(start_cells), T, v)
+                    passes = bool(ex) and not wt
+                    if j < len(vals) - 1 and passes and v != final and bad is None:
+                        bad = "with %d threads, in use number %d a thread goes on when the counter holds %d, i.e. after only %d of %d arrivals" % (T, use + 1, v, j + 1, T)
+                    if j == len(vals) - 1 and not passes and bad is None:
+                        bad = "with %d thread(s), in use number %d nobody goes on when all have arrived (counter %d)" % (T, use + 1, v)
+                rests.setdefault(k, []).append(final)
+            elif len(touched) > 1:
+                ck.inconclusive("C17.7", inst, f.where, "one use modifies several counters", cfg)
+                return
+            phase = ph_next
+        # the wrap probe: rest values in arithmetic progression
+        for k, rv_ in rests.items():
+            if len(rv_) >= 3 and rv_[1] - rv_[0] == rv_[2] - rv_[1] != 0:
+                d = rv_[1] - rv_[0]
+                start = (M32 // d) * d
+                if start == M32 + 1 - d and (M32 + 1) % d == 0:
+                    continue
+                cells = {k: start}
+                # find a phase that uses counter k: replay phases until a use touches k
+                for ph in range(0, 4):
+                    c2 = dict(cells)
+                    seq = []
+                    leaders = 0
+                    okp = True
+                    for i in range(T):
+                        exits, waits, c2 = call(ph, c2, T, None)
+                        if not exits or len({o.ret for o in exits}) != 1:
+                            okp = False
+                            break
+                        leaders += 1 if next(iter({o.ret for o in exits})) else 0
+                        seq.append(c2.get(k))
+                    if not okp or not seq or seq[-1] == start:
+                        continue
+                    n_uses += 1
+                    if leaders != 1 and bad is None:
+                        bad = "with %d threads, the use that takes the counter across 2^32 (from %d) elects %d leaders" % (T, start, leaders)
+                    for j, v in enumerate(seq[:-1]):
+                        ex, wt, _ = call(ph, {k: start}, T, v)
+                        if ex and not wt and v != seq[-1] and bad is None:
+                            bad = "with %d threads, in the use that takes the counter across 2^32 (from %d) a thread goes on when the counter holds %d, after %d of %d arrivals" % (T, start, v, j + 1, T)
+                    break
+    if bad:
+        ck.violated("C17.7", inst, f.where, bad, cfg)
+    else:
+        ck.holds("C17.7", inst, f.where, "%d uses interpreted (1, 2, 3, 5, 8 threads in lock step): one leader per use, waiting at every intermediate counter value, passing at the final one" % n_uses, cfg)
